@@ -44,6 +44,15 @@ fn adv_regs() -> BoxedStrategy<Regs> {
         .boxed()
 }
 
+/// (shape index in lo..hi, adversarial registers, address fix-up classes, value at the operand, call stack non-empty, label offset class)
+pub fn shape_case_s(lo: usize, hi: usize) -> BoxedStrategy<(usize, Regs, Fix, Option<u16>, bool, u16)> {
+    (lo..hi, adv_regs(), fix_s(), proptest::option::weighted(0.6, proptest::sample::select(vec![0u16, 1, 0xFFFF, 0x00FF, 0x8000, 0x7FFF])), any::<bool>(), 0u16..4)
+        .prop_map(|(i, regs, fix, memval, cs, lo)| (i, regs, fix, memval, cs, lo))
+        .boxed()
+}
+
+pub const LABEL_OFFS: [u16; 4] = [0u16, 1, 0xFFFD, 0x8000];
+
 pub fn run(ctx: &Ctx) {
     ctx.set_rule("every shape of the enumerator (all instruction forms the assembler can emit) x proptest-generated adversarial machine states: each register from {0,1,7FFFh,8000h,FFFEh,FFFFh,random}, segments FFFFh/F001h/FFF0h so that seg*16+off straddles 2^20, operand addresses constructed onto FFFFEh..100001h and offsets onto FFFEh..1, SS:SP / DS:SI / ES:DI / DS:BX+AL boundary classes, counts 0..255, divisors 0/1/-1 placed at the operand, empty and non-empty call stack; built with overflow checks; oracle: no panic, a defined outcome, and every changed memory byte explained by the reference model's wrapped addresses (whole-memory comparison). Non-trivial = operand address within +-2 of 2^20, SP/SI/DI step wrapping 16 bits, count >= width, or a divide-error input.");
     ctx.assume("value-level disagreements (a wrong flag or result at a correct location) are the subject of C01-C07 and are not counted here");
@@ -62,8 +71,7 @@ pub fn run(ctx: &Ctx) {
             let lo = sh * nshapes / shards;
             let hi = (sh + 1) * nshapes / shards;
             let shapes_ref = &shapes;
-            let strat = (lo..hi, adv_regs(), fix_s(), proptest::option::weighted(0.6, proptest::sample::select(vec![0u16, 1, 0xFFFF, 0x00FF, 0x8000, 0x7FFF])), any::<bool>(), 0u16..4)
-                .prop_map(|(i, regs, fix, memval, cs, lo)| (i, regs, fix, memval, cs, lo));
+            let strat = shape_case_s(lo, hi);
             let cases = (hi - lo) as u32 * per_shape;
             let r = pt::run(ctx.sub_seed("c09", sh as u64), cases, &strat, |(i, regs, fix, memval, cs, lo), counting| {
                 let insn = shapes_ref[*i].clone();
@@ -143,5 +151,8 @@ pub fn run(ctx: &Ctx) {
     }
     ctx.sample(json!({"kind":"c09","shape":canonical(&shapes[100]),"state":"regs from {0,1,7FFF,8000,FFFE,FFFF,random}, DS=ES=SS=FFFF"}));
     ctx.sample(json!({"kind":"c09","shape":canonical(&shapes[nshapes-40]),"state":"adversarial"}));
+    if ctx.tier == Tier::Thorough {
+        crate::fuzzrun::exec_campaign(ctx, &[], &["panic", "interp-reject", "repeat-runaway", "memory", "outcome", "assembler-panic", "emitted-count"]);
+    }
     crate::c09cli::run(ctx);
 }
